@@ -46,6 +46,8 @@ structure JState where
   nodes : List NodeJ := [{}, {}, {}]
   /-- digest id ↦ the (c,k,p) of the commit op during which the entry first appeared anywhere -/
   bindings : List (Nat × Nat × Nat × Nat) := []
+  /-- the case runs MessageDB stores with server-allocated, unkeyed records -/
+  fresh : Bool := false
 deriving Repr, Inhabited
 
 def JState.nodeJ (j : JState) (i : Nat) : NodeJ := if i = 0 then {} else (j.nodes[i - 1]?).getD {}
@@ -142,7 +144,7 @@ def watermarkRecs (cur : Obs) : List Nat → List CRec
 def JState.update1 (j : JState) (op : Op) (cur : Obs) : JState :=
   if cur.res == ["bad-op"] then j else
   match op with
-  | .cfg n _ _ => if cur.isOk then { n := n, prev := cur, nodes := mkNodeJs n } else { j with prev := cur }
+  | .cfg n _ _ fr => if cur.isOk then { n := n, prev := cur, nodes := mkNodeJs n, fresh := fr } else { j with prev := cur }
   | .crash i | .restart i =>
     if cur.isOk then { j with prev := cur, nodes := setNodeJ j.nodes i (fun _ => {}) } else { j with prev := cur }
   | .repair _ _ _ => { j with prev := cur }
